@@ -1,10 +1,16 @@
 """pytolean — translate a SMALL, explicitly delimited subset of Python function definitions to Lean 4 text.
 
 The source is obtained with `inspect.getsource` from the imported function object and read with `ast.parse` (no text
-scraping).  The translation is literal: nothing is simplified, no invariant is used; what the loop means is proved in
-lean/Reduino/GenOb/Layout.lean against the hand-written model.
+scraping).  The translation is literal: nothing is simplified, no invariant is used; what the code means is proved in
+lean/Reduino/GenOb/{Layout,Escape,Utils}.lean against the hand-written models.
 
-THE SUBSET  (anything else raises `Unsupported(<ast node kind>, <line in the function>)`)
+A function is read as one of three SHAPES, named by the generator in harness/extract.py (`translate_function(fn, shape)`):
+  "str"    a scan over the characters of one string          (W20: `_indent_of`, `_strip_inline_comment`, `_escape_string_literal`)
+  "num"    straight-line arithmetic over Python numbers      (W21: `Utils.map`, `Utils.sleep`)
+  "lines"  an index loop `while i < len(lines)` over a list of lines   (W21: `_collect_block`)
+The subsets of "num" and "lines" are spelled out after that of "str", at the end of this docstring.
+
+THE SUBSET, shape "str"  (anything else raises `Unsupported(<ast node kind>, <line in the function>)`)
 
   def f(p):                         exactly one positional parameter, a `str` (annotations are ignored, no defaults,
       "docstring"                    no decorators); strings are `List Char`
@@ -41,6 +47,43 @@ WHAT IS GENERATED  for a function with a loop named `_indent_of` (Lean name `ind
 MEANING OF THE PYTHON PRIMITIVES (trusted, see DESIGN.md W20): str = List Char; `p[:idx]` with 0 <= idx = `List.take`;
 `.rstrip()` = `Reduino.Lang.Layout.rstrip`; `.replace(c, s)` with a one-character pattern = `Reduino.Lang.Esc.replaceChar`;
 Python's unbounded non-negative int with `+=` of a non-negative literal = Nat.
+
+THE SUBSET, shape "num"  (W21)
+
+  def f(p1, ..., pn, *, hook=None):      n >= 1 positional parameters without defaults: Python numbers, the model's `Val α` (int | float over the
+      "docstring"                        carrier α); keyword-only parameters must default to None (effect hooks); annotations ignored
+      if <cmp>: raise <E>(...)           E in ValueError | TypeError | RuntimeError | ZeroDivisionError; no else   ->  `if c then .error .e else <rest>`
+      v = <num expr>                     each local assigned once, never a parameter                                ->  `let v := e` / <rest>
+      h = <hook> or <dotted name>        at most once: h is THE EFFECT of the function; no Lean text
+      return <num expr>  |  h(<num expr>)     the last statement: `.ok e` — for `h(e)` the result of the translated function is the value handed to the effect
+  num expr   parameter | local | int literal (`Val.int n`) | float literal with an integral value, |x| < 2^53 (`Val.flt (Num.ofInt n)`) | -e (`Val.neg`)
+             | e + e | e - e | e * e | e / e  (`Val.add/sub/mul/div`) | float(e) (`Val.toFloat`)
+             `a / d` only where d is a non-zero literal, or `x - y` after a guard `if x == y: raise ...` (or `y == x`) has been passed: Python raises
+             ZeroDivisionError on a zero divisor, `Val.div` does not
+  cmp        a == b (`Reduino.Host.Utils.veq`, numbers without NaN) | a != b | a < b (`Val.lt`) | a <= b (`Val.le`) | a > b | a >= b (operands swapped)
+  generated  `def f (p1 ... pn : Val α) : Except Exc (Val α)` under `variable {α} [Num α] [LT α] [LE α] … [Div α] [Neg α]` — generic in the float carrier
+             exactly as the model is, so the obligation `Gen.Utils.f … = Host.Utils.f …` covers the ordered field of the theorems AND the IEEE `Float` of the driver
+
+THE SUBSET, shape "lines"  (W21)
+
+  def f(lines, n1, ...):                 `lines` (the parameter under `len(...)` in the loop test): a list of str = `List (List Char)`; the others: ints >= 0 = Nat
+      c = <nat expr>                     a local the loop does not change: a constant (`let` in the wrapper, a parameter of `f.go`)
+      i = <nat expr>                     a local the loop changes with `+=`: a Nat state field; one of them is the loop index
+      acc = []   |  acc: List[str] = []  a local the loop `.append`s to: a `List (List Char)` state field
+      while i < len(lines):              exactly this test, no else;  then one `return <local> | <local>, <local>, ...`
+  loop body  acc.append(<line>) | i += <int literal >= 0> | if <bool>: ... [elif ...] [else: ...] | continue | break | return <result>
+  line       lines[i] inside the loop, and only while `i` has not been advanced in this iteration (= `cur`, the head of the lines still to be read);
+             lines[<nat expr>] before the loop (= `lines.getD k []`: an index out of range raises IndexError in Python, reads the empty line here)
+  nat expr   parameter | constant | Nat local | int literal >= 0 | e + e | g(<line>) with g a shape-"str" function returning a Nat local, translated
+             EARLIER IN THE SAME MODULE (the call goes to the translated g: `_indent_of` -> `indentOf`); a callee that was not translated leaves the caller out
+  bool       not <line>.strip() (`(Reduino.Lang.Layout.strip l).isEmpty`) | <line>.strip() | not b | b and b | b or b | <nat> <op> <nat>, op in <= < >= > == !=
+  checked    every path to the next iteration (falling off the body, `continue`) advances the index by EXACTLY one — so that `while i < len(lines)` with
+             `lines[i]` is the structural recursion `f.go … : List (List Char) → Exit State ρ` on `lines[i:]`, started on `lines.drop <initial i>`;
+             no parameter is assigned, appended to or otherwise changed in the loop
+  generated  `structure f.State` (state fields in order of initialisation), `def f.go (c : Nat)… (st : f.State) : List (List Char) → Exit f.State ρ`,
+             `def f (lines : List (List Char)) (n1 … : Nat) : ρ := let c := …; match f.go c… <initial state> (lines.drop <i0>) with | .ret v => v | .fell st => <final return>`
+  meaning of the primitives (trusted): list of str = `List (List Char)`; `acc.append(x)` = `acc ++ [x]`; `.strip()` = `Lang.Layout.strip` (the six ASCII blanks, as `.rstrip()`);
+  ints are non-negative (`start` is an index; `lines[-1]` is outside the tie)
 """
 from __future__ import annotations
 
@@ -360,6 +403,367 @@ class _Fn:
         return "\n".join(out)
 
 
+# ================================================================================================ numeric functions (W21)
+EXC = {"ValueError": ".valueError", "TypeError": ".typeError", "RuntimeError": ".runtimeError", "ZeroDivisionError": ".zeroDiv"}
+VEQ = "Reduino.Host.Utils.veq"
+NUM_RESERVED = {"α", "Val", "Num", "Except", "Exc", "Reduino"}
+NUM_VARIABLES = ("variable {α : Type} [Num α] [LT α] [LE α] [DecidableLT α] [DecidableLE α]\n"
+                 "variable [Add α] [Sub α] [Mul α] [Div α] [Neg α]\n")
+
+
+class _NumFn:
+    """translation of one straight-line function over Python numbers (shape "num", see the module docstring)"""
+
+    def __init__(self, node: ast.FunctionDef, pyname: str):
+        self.node, self.pyname = node, pyname
+        self.name = lean_name_of(pyname)
+        self.params: list[str] = []
+        self.hooks: set[str] = set()        # keyword-only parameters with default None
+        self.locals: list[str] = []
+        self.effect = None                  # the local bound to `<hook> or <dotted name>`
+        self.distinct: set[frozenset] = set()   # {x, y} after a passed guard `if x == y: raise`
+
+    def bad(self, node, why=""):
+        return Unsupported(type(node).__name__, getattr(node, "lineno", 0), why, self.pyname)
+
+    def ident(self, name, node):
+        if name in NUM_RESERVED:
+            raise self.bad(node, f"identifier {name!r} collides with a name the translator binds")
+        try:
+            return lean_ident(name)
+        except Unsupported as u:
+            raise self.bad(node, u.why) from None
+
+    # ---- expressions -> Lean term of type `Val α`
+    def num(self, e) -> str:
+        if isinstance(e, ast.Name) and isinstance(e.ctx, ast.Load):
+            if e.id in self.params or e.id in self.locals:
+                return self.ident(e.id, e)
+            raise self.bad(e, f"{e.id!r} is not a number parameter or a local assigned before")
+        if isinstance(e, ast.Constant):
+            v = e.value
+            if type(v) is int:
+                return f"(Val.int {v})" if v >= 0 else f"(Val.int ({v}))"
+            if type(v) is float and v == v and abs(v) < 2.0 ** 53 and v == int(v):
+                return f"(Val.flt (Num.ofInt {int(v)}))" if v >= 0 else f"(Val.flt (Num.ofInt ({int(v)})))"
+            raise self.bad(e, "only int literals and float literals with an integral value")
+        if isinstance(e, ast.UnaryOp) and isinstance(e.op, ast.USub):
+            return f"(Val.neg {self.num(e.operand)})"
+        if isinstance(e, ast.BinOp):
+            ops = {ast.Add: "Val.add", ast.Sub: "Val.sub", ast.Mult: "Val.mul", ast.Div: "Val.div"}
+            if type(e.op) not in ops:
+                raise self.bad(e, "only + - * /")
+            if isinstance(e.op, ast.Div):
+                self.nonzero(e.right, e)
+            return f"({ops[type(e.op)]} {self.num(e.left)} {self.num(e.right)})"
+        if (isinstance(e, ast.Call) and isinstance(e.func, ast.Name) and e.func.id == "float" and len(e.args) == 1 and not e.keywords
+                and "float" not in self.params and "float" not in self.locals):
+            return f"(Val.toFloat {self.num(e.args[0])})"
+        raise self.bad(e, "not a numeric expression of the subset")
+
+    def nonzero(self, d, at):
+        """the divisor must be known to be non-zero: Python raises ZeroDivisionError there, `Val.div` does not"""
+        if isinstance(d, ast.Constant) and type(d.value) in (int, float) and d.value != 0:
+            return
+        if (isinstance(d, ast.BinOp) and isinstance(d.op, ast.Sub) and isinstance(d.left, ast.Name) and isinstance(d.right, ast.Name)
+                and frozenset((d.left.id, d.right.id)) in self.distinct):
+            return
+        raise self.bad(at, "the divisor is neither a non-zero literal nor `x - y` after a guard `if x == y: raise ...`")
+
+    def cond(self, e) -> str:
+        if isinstance(e, ast.Compare) and len(e.ops) == 1:
+            a, b = self.num(e.left), self.num(e.comparators[0])
+            op = type(e.ops[0])
+            table = {ast.Eq: f"{VEQ} {a} {b}", ast.NotEq: f"!{VEQ} {a} {b}", ast.Lt: f"Val.lt {a} {b}", ast.LtE: f"Val.le {a} {b}",
+                     ast.Gt: f"Val.lt {b} {a}", ast.GtE: f"Val.le {b} {a}"}
+            if op in table:
+                return table[op]
+        raise self.bad(e, "only a single comparison `a <op> b` with == != < <= > >=")
+
+    # ---- statements -> lines of a Lean term of type `Except Exc (Val α)`
+    def block(self, stmts, ind) -> list[str]:
+        pad = "  " * ind
+        if not stmts:
+            raise self.bad(self.node, "the function ends without `return <expr>` or a call of its effect")
+        s, tail = stmts[0], stmts[1:]
+        if isinstance(s, ast.If):
+            r = s.body[0] if len(s.body) == 1 else None
+            if s.orelse or not isinstance(r, ast.Raise) or r.cause is not None:
+                raise self.bad(s, "only `if <comparison>: raise <Error>(...)` without else")
+            exc = r.exc.func if isinstance(r.exc, ast.Call) else r.exc
+            if not (isinstance(exc, ast.Name) and exc.id in EXC):
+                raise self.bad(r, "raises something other than " + "/".join(EXC))
+            c = self.cond(s.test)
+            cmp = s.test
+            if isinstance(cmp.ops[0], ast.Eq) and isinstance(cmp.left, ast.Name) and isinstance(cmp.comparators[0], ast.Name):
+                self.distinct.add(frozenset((cmp.left.id, cmp.comparators[0].id)))
+            return [pad + f"if {c} then .error {EXC[exc.id]}", pad + "else"] + self.block(tail, ind + 1)
+        if isinstance(s, ast.Assign):
+            if len(s.targets) != 1 or not isinstance(s.targets[0], ast.Name):
+                raise self.bad(s, "single-name assignment only")
+            name = s.targets[0].id
+            if name in self.params or name in self.hooks or name in self.locals or name == self.effect:
+                raise self.bad(s, f"{name!r} is assigned twice or shadows a parameter")
+            v = s.value
+            if (isinstance(v, ast.BoolOp) and isinstance(v.op, ast.Or) and len(v.values) == 2 and isinstance(v.values[0], ast.Name)
+                    and v.values[0].id in self.hooks and self.dotted(v.values[1]) and self.effect is None):
+                self.effect = name          # `<hook> or <default callable>`: the effect; no Lean text
+                return self.block(tail, ind)
+            t = self.num(v)
+            self.locals.append(name)
+            return [pad + f"let {self.ident(name, s)} := {_Fn.unparen(t)}"] + self.block(tail, ind)
+        if isinstance(s, ast.Return):
+            if s.value is None or tail:
+                raise self.bad(s, "`return <expr>` must be the last statement")
+            return [pad + f".ok {self.num(s.value)}"]
+        if isinstance(s, ast.Expr) and isinstance(s.value, ast.Call):
+            c = s.value
+            if not (isinstance(c.func, ast.Name) and c.func.id == self.effect and len(c.args) == 1 and not c.keywords and not tail):
+                raise self.bad(s, "only one call `<effect>(<expr>)`, as the last statement")
+            return [pad + f".ok {self.num(c.args[0])}"]
+        raise self.bad(s, "not a statement of the subset")
+
+    @staticmethod
+    def dotted(e) -> bool:
+        while isinstance(e, ast.Attribute):
+            e = e.value
+        return isinstance(e, ast.Name)
+
+    def translate(self) -> str:
+        f, a = self.node, self.node.args
+        if f.decorator_list:
+            raise self.bad(f.decorator_list[0], "decorator")
+        if isinstance(f, ast.AsyncFunctionDef) or a.posonlyargs or a.vararg or a.kwarg or a.defaults or not a.args:
+            raise self.bad(f, "plain positional parameters without defaults (and keyword-only hooks `=None`)")
+        for k, d in zip(a.kwonlyargs, a.kw_defaults):
+            if not (isinstance(d, ast.Constant) and d.value is None):
+                raise self.bad(k, "a keyword-only parameter must default to None")
+            self.hooks.add(k.arg)
+        self.params = [x.arg for x in a.args]
+        if len(set(self.params) | self.hooks) != len(self.params) + len(self.hooks):
+            raise self.bad(f, "duplicate parameter")
+        stmts = list(f.body)
+        if stmts and isinstance(stmts[0], ast.Expr) and isinstance(stmts[0].value, ast.Constant) and isinstance(stmts[0].value.value, str):
+            stmts = stmts[1:]
+        body = self.block(stmts, 1)
+        ps = " ".join(self.ident(p, f) for p in self.params)
+        return "\n".join([f"/-- `{self.pyname}` (translated) -/", f"def {self.name} ({ps} : Val α) : Except Exc (Val α) :="] + body + [""])
+
+
+
+# ================================================================================================ index loops over a list of lines (W21)
+STRIP = "Reduino.Lang.Layout.strip"
+CUR = "cur"
+
+
+class _LinesFn(_Fn):
+    """translation of one function that walks a list of lines with `while i < len(lines)` (shape "lines", see the module docstring)"""
+
+    def __init__(self, node: ast.FunctionDef, pyname: str, known=None):
+        super().__init__(node, pyname)
+        self.known = known or {}            # python name -> (Lean name, result type) of the `str` functions translated before, same module
+        self.lines = None                   # the list parameter
+        self.nats: list[str] = []           # the other parameters: non-negative ints
+        self.consts: list[tuple[str, str, str]] = []   # locals the loop does not change: (name, type, term)
+
+    def ident(self, name, node):
+        if name == CUR:
+            raise self.bad(node, f"identifier {name!r} collides with a name the translator binds")
+        try:
+            return lean_ident(name)
+        except Unsupported as u:
+            raise self.bad(node, u.why) from None
+
+    def ctype(self, name):
+        for n, t, _ in self.consts:
+            if n == name:
+                return t
+        return None
+
+    # ---- expressions
+    def line_expr(self, e, env) -> str:
+        """-> Lean term of type List Char: `lines[i]` at the loop index (not yet advanced), `lines[<nat>]` before the loop"""
+        if isinstance(e, ast.Subscript) and isinstance(e.ctx, ast.Load) and isinstance(e.value, ast.Name) and e.value.id == self.lines and not isinstance(e.slice, ast.Slice):
+            if self.in_loop:
+                if isinstance(e.slice, ast.Name) and e.slice.id == self.idx and env.get(self.idx) == f"st.{lean_ident(self.idx)}":
+                    return CUR
+                raise self.bad(e, "inside the loop only `<lines>[<index>]`, read before the index is advanced")
+            return f"({self.ident(self.lines, e)}.getD {self.atom(self.nat_expr(e.slice, env))} [])"
+        raise self.bad(e, "not a line expression of the subset")
+
+    def nat_expr(self, e, env) -> str:
+        if isinstance(e, ast.Constant) and type(e.value) is int and e.value >= 0:
+            return str(e.value)
+        if isinstance(e, ast.Name) and isinstance(e.ctx, ast.Load):
+            if e.id in self.nats or self.ctype(e.id) == "Nat":
+                return self.ident(e.id, e)
+            if self.ftype(e.id) == "Nat" and e.id in env:
+                return env[e.id]
+            raise self.bad(e, f"{e.id!r} is not a non-negative int of this function")
+        if isinstance(e, ast.BinOp) and isinstance(e.op, ast.Add):
+            return f"{self.atom(self.nat_expr(e.left, env))} + {self.atom(self.nat_expr(e.right, env))}"
+        if isinstance(e, ast.Call) and isinstance(e.func, ast.Name) and len(e.args) == 1 and not e.keywords:
+            lean, rty = self.known.get(e.func.id, (None, None))
+            if rty != "Nat":
+                raise self.bad(e, f"calls `{e.func.id}`, which is not a translated str -> int function of this module")
+            return f"{lean} {self.atom(self.line_expr(e.args[0], env))}"
+        raise self.bad(e, "not an int expression of the subset")
+
+    def is_strip(self, e):
+        return isinstance(e, ast.Call) and isinstance(e.func, ast.Attribute) and e.func.attr == "strip" and not e.args and not e.keywords
+
+    def bool_expr(self, e, env) -> str:
+        if isinstance(e, ast.UnaryOp) and isinstance(e.op, ast.Not):
+            if self.is_strip(e.operand):
+                return f"({STRIP} {self.atom(self.line_expr(e.operand.func.value, env))}).isEmpty"
+            return "!" + self.atom(self.bool_expr(e.operand, env))
+        if self.is_strip(e):
+            return f"!({STRIP} {self.atom(self.line_expr(e.func.value, env))}).isEmpty"
+        if isinstance(e, ast.BoolOp) and isinstance(e.op, (ast.And, ast.Or)):
+            op = " && " if isinstance(e.op, ast.And) else " || "
+            return "(" + op.join(self.atom(self.bool_expr(v, env)) for v in e.values) + ")"
+        if isinstance(e, ast.Compare):
+            ops = {ast.LtE: "≤", ast.Lt: "<", ast.GtE: "≥", ast.Gt: ">", ast.Eq: "=", ast.NotEq: "≠"}
+            if len(e.ops) != 1 or type(e.ops[0]) not in ops:
+                raise self.bad(e, "only a single comparison of ints")
+            return f"decide ({self.nat_expr(e.left, env)} {ops[type(e.ops[0])]} {self.nat_expr(e.comparators[0], env)})"
+        raise self.bad(e, "not a bool expression of the subset")
+
+    # ---- loop body
+    def recurse(self, env) -> str:
+        if env[self.idx] != f"st.{lean_ident(self.idx)} + 1":
+            raise self.bad(self.loop, f"every path to the next iteration must advance `{self.idx}` by exactly one (found {env[self.idx]!r})")
+        cs = "".join(" " + self.ident(n, self.loop) for n, _, _ in self.consts)
+        return f"{self.name}.go{cs} {self.state(env)} rest"
+
+    def result_expr(self, e, env) -> str:
+        elts = e.elts if isinstance(e, ast.Tuple) else [e]
+        terms, types = [], []
+        for x in elts:
+            if not isinstance(x, ast.Name):
+                raise self.bad(x, "the result is a local or a tuple of locals")
+            t = self.ftype(x.id) or self.ctype(x.id)
+            if t is None or (self.ftype(x.id) and x.id not in env):
+                raise self.bad(x, f"{x.id!r} is not a local of this function")
+            terms.append(env[x.id] if self.ftype(x.id) else self.ident(x.id, x))
+            types.append(t if " " not in t else f"({t})") if len(elts) > 1 else types.append(t)
+        self.result(" × ".join(types), e)
+        return "(" + ", ".join(terms) + ")" if len(terms) > 1 else terms[0]
+
+    def body(self, stmts, env, ind) -> list[str]:
+        if stmts:
+            s, tail = stmts[0], stmts[1:]
+            if isinstance(s, ast.AugAssign):
+                if not (isinstance(s.target, ast.Name) and isinstance(s.op, ast.Add) and self.ftype(s.target.id) == "Nat"
+                        and isinstance(s.value, ast.Constant) and type(s.value.value) is int and s.value.value >= 0):
+                    raise self.bad(s, "only `<int local> += <literal >= 0>`")
+                env = dict(env)
+                env[s.target.id] = f"{env[s.target.id]} + {s.value.value}"
+                return self.body(tail, env, ind)
+            if isinstance(s, ast.Expr):
+                c = s.value
+                if not (isinstance(c, ast.Call) and isinstance(c.func, ast.Attribute) and c.func.attr == "append" and isinstance(c.func.value, ast.Name)
+                        and self.ftype(c.func.value.id) == "List (List Char)" and len(c.args) == 1 and not c.keywords):
+                    raise self.bad(s, "only `<list local>.append(<line>)`")
+                env = dict(env)
+                env[c.func.value.id] = f"{env[c.func.value.id]} ++ [{self.line_expr(c.args[0], env)}]"
+                return self.body(tail, env, ind)
+            if isinstance(s, ast.Assign):
+                raise self.bad(s, "no assignment inside the loop (only `+=` and `.append`)")
+        return super().body(stmts, env, ind)
+
+    @staticmethod
+    def changed_in(loop) -> set:
+        out = set()
+        for n in ast.walk(loop):
+            if isinstance(n, ast.AugAssign) and isinstance(n.target, ast.Name):
+                out.add(n.target.id)
+            elif isinstance(n, (ast.Assign, ast.AnnAssign)):
+                for t in (n.targets if isinstance(n, ast.Assign) else [n.target]):
+                    out |= {x.id for x in ast.walk(t) if isinstance(x, ast.Name)}
+            elif isinstance(n, ast.Call) and isinstance(n.func, ast.Attribute) and isinstance(n.func.value, ast.Name) and n.func.attr != "strip":
+                out.add(n.func.value.id)
+        return out
+
+    def translate(self) -> str:
+        f, a = self.node, self.node.args
+        if f.decorator_list:
+            raise self.bad(f.decorator_list[0], "decorator")
+        if isinstance(f, ast.AsyncFunctionDef) or a.posonlyargs or a.kwonlyargs or a.vararg or a.kwarg or a.defaults or len(a.args) < 1:
+            raise self.bad(f, "plain positional parameters only")
+        stmts = list(f.body)
+        if stmts and isinstance(stmts[0], ast.Expr) and isinstance(stmts[0].value, ast.Constant) and isinstance(stmts[0].value.value, str):
+            stmts = stmts[1:]
+        if len(stmts) < 2 or not isinstance(stmts[-2], ast.While) or not isinstance(stmts[-1], ast.Return) or stmts[-1].value is None:
+            raise self.bad(stmts[-2] if len(stmts) >= 2 else f, "expected: initialisers, one `while <i> < len(<lines>)` loop, one `return`")
+        loop, final = stmts[-2], stmts[-1]
+        self.loop = loop
+        t = loop.test
+        if not (not loop.orelse and isinstance(t, ast.Compare) and len(t.ops) == 1 and isinstance(t.ops[0], ast.Lt) and isinstance(t.left, ast.Name)
+                and isinstance(t.comparators[0], ast.Call) and isinstance(t.comparators[0].func, ast.Name) and t.comparators[0].func.id == "len"
+                and len(t.comparators[0].args) == 1 and isinstance(t.comparators[0].args[0], ast.Name) and not t.comparators[0].keywords):
+            raise self.bad(loop, "only `while <i> < len(<lines>)` without else")
+        self.idx, self.lines = t.left.id, t.comparators[0].args[0].id
+        params = [x.arg for x in a.args]
+        if self.lines not in params or self.idx in params or len(set(params)) != len(params):
+            raise self.bad(loop, "the loop must run over a parameter, with a local index")
+        self.param = self.lines
+        self.nats = [p for p in params if p != self.lines]
+        changed = self.changed_in(loop)
+        if self.lines in changed or set(self.nats) & changed:
+            raise self.bad(loop, "a parameter is modified inside the loop")
+        # ---- initialisers: a local the loop changes is a state field, any other a constant
+        for s in stmts[:-2]:
+            if isinstance(s, ast.Assign) and len(s.targets) == 1 and isinstance(s.targets[0], ast.Name):
+                name, val = s.targets[0].id, s.value
+            elif isinstance(s, ast.AnnAssign) and isinstance(s.target, ast.Name) and s.value is not None and s.simple:
+                name, val = s.target.id, s.value
+            else:
+                raise self.bad(s, "initialiser must be `<name> = <int expr>` or `<name> = []`")
+            if name in params or self.ftype(name) or self.ctype(name):
+                raise self.bad(s, f"{name!r} initialised twice or shadows a parameter")
+            self.ident(name, s)
+            if isinstance(val, ast.List) and not val.elts:
+                ty, term = "List (List Char)", "[]"
+            else:
+                ty, term = "Nat", self.nat_expr(val, {})
+            if name in changed:
+                self.fields.append((name, ty, term))
+            elif ty == "Nat":
+                self.consts.append((name, ty, term))
+            else:
+                raise self.bad(s, "a list local the loop never appends to")
+        if self.ftype(self.idx) != "Nat":
+            raise self.bad(loop, f"the index `{self.idx}` must be an int local initialised before the loop and advanced in it")
+        unknown = changed - {n for n, _, _ in self.fields}
+        if unknown:
+            raise self.bad(loop, f"the loop changes {sorted(unknown)}, not initialised before it")
+        # ---- body and final return
+        env0 = {n: f"st.{lean_ident(n)}" for n, _, _ in self.fields}
+        self.in_loop = True
+        cons = self.body(list(loop.body), env0, 2)
+        self.in_loop = False
+        fin = self.result_expr(final.value, env0)
+        rho = self.result_type
+        rho_a = rho if " " not in rho else f"({rho})"
+        ls = self.ident(self.lines, f)
+        cb = "".join(f" ({self.ident(n, f)} : {t})" for n, t, _ in self.consts)
+        out = [f"structure {self.name}.State where"]
+        out += [f"  {lean_ident(n)} : {t}" for n, t, _ in self.fields]
+        out += ["", f"/-- the loop of `{self.pyname}`: the state before the lines still to be read (`{self.lines}[{self.idx}:]`, `{CUR}` = `{self.lines}[{self.idx}]`) ↦ how the loop is left -/",
+                f"def {self.name}.go{cb} (st : {self.name}.State) : List (List Char) → Exit {self.name}.State {rho_a}",
+                "  | [] => .fell st", f"  | {CUR} :: rest =>"]
+        out += cons
+        init = "{ " + ", ".join(f"{lean_ident(n)} := {v}" for n, _, v in self.fields) + " }"
+        i0 = [v for n, _, v in self.fields if n == self.idx][0]
+        sig = f"({ls} : List (List Char))" + "".join(f" ({self.ident(n, f)} : Nat)" for n in self.nats)
+        out += ["", f"/-- `{self.pyname}` (translated) -/", f"def {self.name} {sig} : {rho} :="]
+        out += [f"  let {self.ident(n, f)} := {v}" for n, _, v in self.consts]
+        out += [f"  match {self.name}.go{''.join(' ' + self.ident(n, f) for n, _, _ in self.consts)} {init} ({ls}.drop {self.atom(i0)}) with",
+                "  | .ret v => v", f"  | .fell {'st' if 'st.' in fin else '_'} => {fin}", ""]
+        return "\n".join(out)
+
+
 HEADER = """/-- how a translated loop is left: by `return v`, or by `break` / exhaustion with the state `st` -/
 inductive Exit (σ ρ : Type) where
   | ret (v : ρ)
@@ -375,34 +779,48 @@ def function_ast(fn) -> ast.FunctionDef:
     return mod.body[0]
 
 
-def translate_function(fn) -> str:
-    """Lean text (structure + go + wrapper, or a single def) of the Python function object `fn`"""
+def _make(shape: str, node, name: str, known=None):
+    if shape == "lines":
+        return _LinesFn(node, name, known)
+    return {"str": _Fn, "num": _NumFn}[shape](node, name)
+
+
+def translate_function(fn, shape: str = "str", known=None) -> str:
+    """Lean text of the Python function object `fn`, read as a function of the given shape (see the module docstring).  `known`: the
+    `str` functions of the same module translated before, python name -> (Lean name, result type); it is extended."""
     if not inspect.isfunction(fn):
         raise Unsupported(type(fn).__name__, 0, "not a Python function", getattr(fn, "__name__", "?"))
-    return _Fn(function_ast(fn), fn.__name__).translate()
+    t = _make(shape, function_ast(fn), fn.__name__, known)
+    text = t.translate()
+    if known is not None and shape == "str":
+        known[fn.__name__] = (t.name, t.result_type or "List Char")
+    return text
 
 
-def translate_source(src: str, name: str | None = None) -> str:
+def translate_source(src: str, name: str | None = None, shape: str = "str", known=None) -> str:
     """same, from source text (used by the self-tests)"""
     mod = ast.parse(textwrap.dedent(src))
     defs = [n for n in mod.body if isinstance(n, ast.FunctionDef) and (name is None or n.name == name)]
     if len(defs) != 1:
         raise Unsupported("Module", 1, "expected exactly one function definition")
-    return _Fn(defs[0], defs[0].name).translate()
+    return _make(shape, defs[0], defs[0].name, known).translate()
 
 
-def module_text(namespace: str, functions, imports=()):
-    """-> (Lean text, [Unsupported]).  A function outside the subset is left out of the text (a comment says why), so that exactly the
-    obligations about it stop building; the caller reports the errors."""
-    texts, errors = [], []
+def module_text(namespace: str, functions, imports=(), preamble: str = ""):
+    """-> (Lean text, [Unsupported]).  `functions`: function objects (shape "str") or pairs (function, shape).  A function outside the
+    subset is left out of the text (a comment says why), so that exactly the obligations about it stop building; the caller reports the errors."""
+    texts, errors, known = [], [], {}
     for fn in functions:
+        fn, shape = fn if isinstance(fn, tuple) else (fn, "str")
         try:
-            texts.append(translate_function(fn))
+            texts.append(translate_function(fn, shape, known))
         except Unsupported as e:
             errors.append(e)
             texts.append(f"-- NOT TRANSLATED: `{getattr(fn, '__name__', '?')}` is outside the subset of harness/pytolean.py: {e}\n")
     lines = [f"import {m}" for m in imports]
     lines += [f"namespace {namespace}", ""]
+    if preamble:
+        lines.append(preamble)
     if any(" Exit " in t for t in texts):
         lines.append(HEADER)
     lines += texts
@@ -427,6 +845,34 @@ _REJECTED = {
 }
 
 
+_REJECTED_NUM = {
+    "BinOp": "def f(a, b):\n    return a / b\n",                               # divisor not known to be non-zero
+    "BinOp ": "def f(a, b):\n    return a ** b\n",
+    "Constant": "def f(a):\n    return a * 0.1\n",                             # not an integral float literal
+    "If": "def f(a, b):\n    if a < b:\n        return a\n    return b\n",
+    "Raise": "def f(a):\n    if a < 0:\n        raise KeyError(a)\n    return a\n",
+    "Assign": "def f(a):\n    a = a + 1\n    return a\n",
+    "Call": "def f(a):\n    return abs(a)\n",
+    "Expr": "def f(a, *, hook=None):\n    hook(a)\n",                          # the effect must be `h = hook or <callable>`
+    "Compare": "def f(a, b):\n    if 0 < a < b:\n        raise ValueError()\n    return a\n",
+    "FunctionDef": "def f(a, b=1):\n    return a\n",
+}
+
+
+_LINES_OK = ("def blk(ls, s):\n    b = ind(ls[s])\n    k = s + 1\n    out = []\n    while k < len(ls):\n        if not ls[k].strip():\n"
+             "            out.append(ls[k]); k += 1; continue\n        if ind(ls[k]) <= b:\n            break\n        out.append(ls[k]); k += 1\n    return out, k\n")
+_REJECTED_LINES = {
+    "While": _LINES_OK.replace("while k < len(ls)", "while k < 3"),
+    "While ": _LINES_OK.replace("out.append(ls[k]); k += 1; continue", "out.append(ls[k]); continue"),          # an iteration that does not advance the index
+    "While  ": _LINES_OK.replace("out.append(ls[k]); k += 1\n", "out.append(ls[k]); k += 2\n"),
+    "Subscript": _LINES_OK.replace("out.append(ls[k]); k += 1\n", "k += 1; out.append(ls[k])\n"),               # `ls[k]` read after the index moved
+    "Subscript ": _LINES_OK.replace("if ind(ls[k]) <= b", "if ind(ls[k + 1]) <= b"),
+    "Call": _LINES_OK.replace("ind(ls[k])", "width(ls[k])"),                                                    # not a translated function of the module
+    "Assign": _LINES_OK.replace("        if ind(ls[k]) <= b", "        b = 0\n        if ind(ls[k]) <= b"),
+    "Expr": _LINES_OK.replace("out.append(ls[k]); k += 1\n", "out.insert(0, ls[k]); k += 1\n"),
+}
+
+
 def selftest(quiet: bool = False) -> int:
     import builtins
     print = (lambda *a, **k: None) if quiet else builtins.print
@@ -440,6 +886,35 @@ def selftest(quiet: bool = False) -> int:
             if e.kind != kind.strip():
                 print(f"selftest: {kind}: refused as {e}")
                 bad += 1
+    for kind, src in _REJECTED_NUM.items():
+        try:
+            translate_source(src, shape="num")
+            print("selftest: ACCEPTED a numeric function outside the subset:", kind)
+            bad += 1
+        except Unsupported as e:
+            if e.kind != kind.strip():
+                print(f"selftest: num {kind}: refused as {e}")
+                bad += 1
+    known = {"ind": ("ind", "Nat")}
+    for kind, src in _REJECTED_LINES.items():
+        try:
+            translate_source(src, shape="lines", known=known)
+            print("selftest: ACCEPTED a line-walking function outside the subset:", kind)
+            bad += 1
+        except Unsupported as e:
+            if e.kind != kind.strip():
+                print(f"selftest: lines {kind}: refused as {e}")
+                bad += 1
+    ok = translate_source(_LINES_OK, shape="lines", known=known)
+    if ("blk.go b { st with k := st.k + 1, out := st.out ++ [cur] } rest" not in ok or "else if decide (ind cur ≤ b) then" not in ok
+            or "match blk.go b { k := s + 1, out := [] } (ls.drop (s + 1)) with" not in ok or "| .fell st => (st.out, st.k)" not in ok):
+        print("selftest: unexpected translation\n" + ok)
+        bad += 1
+    ok = translate_source("def g(a, b, c, *, out=None):\n    if b == a:\n        raise TypeError('x')\n    q = (c - 2) / (a - b)\n    emit = out or print\n    emit(float(q) / 2.0)\n", shape="num")
+    if ("if Reduino.Host.Utils.veq b a then .error .typeError" not in ok or "let q := Val.div (Val.sub c (Val.int 2)) (Val.sub a b)" not in ok
+            or ".ok (Val.div (Val.toFloat q) (Val.flt (Num.ofInt 2)))" not in ok):
+        print("selftest: unexpected translation\n" + ok)
+        bad += 1
     ok = translate_source("def count(s):\n    n = 0\n    q = False\n    for c in s:\n        if c == '\"':\n            q = not q\n            continue\n        if q or c != ' ':\n            n += 2\n    return n\n")
     if "{ st with n := st.n + 2 }" not in ok or "{ st with q := !st.q }" not in ok:
         print("selftest: unexpected translation\n" + ok)
